@@ -102,7 +102,7 @@ pub fn tokenize_cla(input: &str) -> Result<Vec<CToken>, ParseError> {
                 let mut name = String::new();
                 let mut first_char = true;
                 for (i, c) in &mut chars {
-                    if c == '.' {
+                    if c == '.' && !first_char {
                         break;
                     } else if first_char && c.is_alphabetic() {
                         first_char = false;
